@@ -1,0 +1,282 @@
+//go:build verif
+
+package rtpconn
+
+// Exports for the `sig` family of correspondence drivers (C07, C11, C12,
+// C14, C15): drive the real signalling code (handleClientMessage,
+// handleAction, leaveGroup, the connection-end code of StartClient) without a
+// websocket and without media.  Add-only; nothing here is compiled into the
+// server.
+//
+// A VerifClient is a webClient built exactly as StartClient builds it, except
+// that writeCh is large and writerDone is never closed, so that c.write and
+// broadcast never block and no writer goroutine is needed: what the server
+// "sends" accumulates in writeCh until Drain is called.  No goroutine runs
+// clientLoop: the harness IS the loop and decides, for every client, when the
+// next message is read (Message) and when the action queue is served
+// (PumpActions), which makes every schedule of the real select loop
+// reproducible.
+
+import (
+	"encoding/json"
+	"errors"
+	"net"
+	"sort"
+
+	"github.com/gorilla/websocket"
+
+	"github.com/jech/galene/group"
+	"github.com/jech/galene/unbounded"
+)
+
+type VerifClient struct {
+	c      *webClient
+	closed bool
+}
+
+// VerifWriteBuffer is the capacity of the write channel of the VerifClients
+// created from now on.  It must exceed the number of messages a client can be
+// sent between two calls of Drain (c.write would block for ever: there is no
+// writer).  A driver that creates very many clients may lower it (the
+// channel is allocated and cleared eagerly: 16 bytes per slot).
+var VerifWriteBuffer = 1 << 14
+
+// NewVerifClient builds the webClient of a connection whose handshake
+// carried the given id (StartClient, after the handshake has been read).
+func NewVerifClient(id string, addr net.Addr) *VerifClient {
+	c := &webClient{
+		addr:    addr,
+		id:      id,
+		actions: unbounded.New[any](),
+		done:    make(chan struct{}),
+	}
+	c.writeCh = make(chan interface{}, VerifWriteBuffer)
+	c.writerDone = make(chan struct{})
+	return &VerifClient{c: c}
+}
+
+// Client returns the underlying group.Client (the value the group stores).
+func (v *VerifClient) Client() group.Client { return v.c }
+
+// Message decodes one websocket text frame as clientReader does
+// (json.Unmarshal into a clientMessage) and hands it to handleClientMessage,
+// as clientLoop does.  A decoding error is returned as err (clientLoop
+// returns it, which ends the connection).  A panic is recovered and
+// returned: in the server it would kill the process.
+func (v *VerifClient) Message(js []byte) (err error, panicked interface{}) {
+	defer func() {
+		if r := recover(); r != nil {
+			panicked = r
+		}
+	}()
+	var m clientMessage
+	err = json.Unmarshal(js, &m)
+	if err != nil {
+		return err, nil
+	}
+	err = handleClientMessage(v.c, m)
+	return err, nil
+}
+
+// Pending reports whether the client's action queue holds a wake-up token,
+// i.e. whether clientLoop's `case <-c.actions.Ch` is ready.
+func (v *VerifClient) Pending() bool {
+	return len(v.c.actions.Ch) > 0
+}
+
+// PumpActions is one iteration of clientLoop's `case <-c.actions.Ch`: if a
+// token is present, take it, Get() the whole queue and run handleAction on
+// every element in order, stopping at the first error (clientLoop returns
+// it; the remaining actions of the batch are dropped).  Non-blocking.
+// Returns the number of actions that ran (including the failing one).
+func (v *VerifClient) PumpActions() (n int, err error, panicked interface{}) {
+	defer func() {
+		if r := recover(); r != nil {
+			panicked = r
+		}
+	}()
+	select {
+	case <-v.c.actions.Ch:
+	default:
+		return 0, nil, nil
+	}
+	actions := v.c.actions.Get()
+	for _, a := range actions {
+		n++
+		err = handleAction(v.c, a)
+		if err != nil {
+			return n, err, nil
+		}
+	}
+	return n, nil, nil
+}
+
+// Drain empties the write channel without blocking.  clientMessage values
+// are marshalled to JSON as clientWriter's WriteJSON would; []byte payloads
+// (broadcast) are passed through; the close message is reported as the
+// pseudo message {"type":"__close__","value":<close frame payload as string>}.
+func (v *VerifClient) Drain() [][]byte {
+	var out [][]byte
+	for {
+		select {
+		case m := <-v.c.writeCh:
+			switch m := m.(type) {
+			case clientMessage:
+				b, err := json.Marshal(m)
+				if err != nil {
+					b, _ = json.Marshal(map[string]interface{}{
+						"type": "__marshal_error__", "value": err.Error()})
+				}
+				out = append(out, b)
+			case []byte:
+				out = append(out, m)
+			case closeMessage:
+				code := 0
+				text := ""
+				if len(m.data) >= 2 {
+					code = int(m.data[0])<<8 | int(m.data[1])
+					text = string(m.data[2:])
+				}
+				b, _ := json.Marshal(map[string]interface{}{
+					"type": "__close__", "value": text, "id": closeCodeName(code)})
+				out = append(out, b)
+			default:
+				b, _ := json.Marshal(map[string]interface{}{"type": "__unexpected__"})
+				out = append(out, b)
+			}
+		default:
+			return out
+		}
+	}
+}
+
+func closeCodeName(code int) string {
+	switch code {
+	case websocket.CloseNormalClosure:
+		return "normal"
+	case websocket.CloseProtocolError:
+		return "protocol"
+	case websocket.CloseInternalServerErr:
+		return "internal"
+	case 0:
+		return "none"
+	}
+	return "other"
+}
+
+// ErrorClose runs what the server runs when clientLoop returns err (an error
+// returned by handleClientMessage or handleAction, or a read error): first
+// clientLoop's deferred leaveGroup, then StartClient's deferred function
+// (errorToWSCloseMessage, the final user message, the close frame), then
+// close(c.done).  It returns the error StartClient would return to the
+// webserver (nil for a normal close or a kick).
+func (v *VerifClient) ErrorClose(err error) (ret error, panicked interface{}) {
+	defer func() {
+		if r := recover(); r != nil {
+			panicked = r
+		}
+	}()
+	if v.closed {
+		return nil, nil
+	}
+	v.closed = true
+	c := v.c
+	leaveGroup(c)
+	m, e := errorToWSCloseMessage(c.id, err)
+	if isWSNormalError(err) {
+		err = nil
+	} else if _, ok := err.(group.KickError); ok {
+		err = nil
+	}
+	if m != nil {
+		c.write(*m)
+	}
+	c.close(e)
+	close(c.done)
+	return err, nil
+}
+
+// Leave models the end of the connection by the peer: the reader returns a
+// normal websocket close error and clientLoop returns it.
+func (v *VerifClient) Leave() (panicked interface{}) {
+	_, p := v.ErrorClose(&websocket.CloseError{Code: websocket.CloseNormalClosure})
+	return p
+}
+
+// Closed reports whether ErrorClose/Leave has run.
+func (v *VerifClient) Closed() bool { return v.closed }
+
+// ErrorClass maps an error returned by Message/PumpActions to the class that
+// decides how StartClient closes the connection.
+func VerifErrorClass(err error) string {
+	if err == nil {
+		return "ok"
+	}
+	switch err.(type) {
+	case *websocket.CloseError:
+		return "wsclose"
+	case group.ProtocolError:
+		return "protocol"
+	case group.UserError:
+		return "user"
+	case group.KickError:
+		return "kick"
+	}
+	var se *json.SyntaxError
+	var te *json.UnmarshalTypeError
+	if errors.As(err, &se) || errors.As(err, &te) {
+		return "decode"
+	}
+	return "internal"
+}
+
+// read-only accessors
+
+func (v *VerifClient) Id() string { return v.c.id }
+
+func (v *VerifClient) GroupName() string {
+	if v.c.group == nil {
+		return ""
+	}
+	return v.c.group.Name()
+}
+
+func (v *VerifClient) HasGroup() bool { return v.c.group != nil }
+
+func (v *VerifClient) Permissions() []string {
+	return append([]string{}, v.c.permissions...)
+}
+
+func (v *VerifClient) Username() string { return v.c.username }
+
+func (v *VerifClient) Data() map[string]interface{} { return v.c.Data() }
+
+func (v *VerifClient) Requested() map[string][]string {
+	out := make(map[string][]string, len(v.c.requested))
+	for k, l := range v.c.requested {
+		out[k] = append([]string{}, l...)
+	}
+	return out
+}
+
+func (v *VerifClient) UpIds() []string {
+	v.c.mu.Lock()
+	defer v.c.mu.Unlock()
+	out := make([]string, 0, len(v.c.up))
+	for id := range v.c.up {
+		out = append(out, id)
+	}
+	sort.Strings(out)
+	return out
+}
+
+func (v *VerifClient) DownIds() []string {
+	v.c.mu.Lock()
+	defer v.c.mu.Unlock()
+	out := make([]string, 0, len(v.c.down))
+	for id := range v.c.down {
+		out = append(out, id)
+	}
+	sort.Strings(out)
+	return out
+}
